@@ -77,6 +77,16 @@ pub fn explain(type_name: &str, d: &Diff, done: &Done) -> Option<&'static str> {
             return Some("ValueRecord-explicit-format-writes-absent-field-as-zero");
         }
     }
+    // --- sbix header flags: "Bit 0: Set to 1" (spec); the writer forces it on
+    // (write-fonts/src/tables/sbix.rs compile_header_flags); all other bits
+    // must survive.
+    if type_name == "Sbix" && d.path == ".flags.bits" && d.kind == DiffKind::Scalar {
+        if let (Ok(w), Ok(r)) = (d.written.parse::<u64>(), d.read.parse::<u64>()) {
+            if r == (w | 1) {
+                return Some("sbix-header-flag-bit0-is-always-set");
+            }
+        }
+    }
     // --- Extension subtables: the writer emits `T::TYPE` of the wrapped
     // subtable type (write-fonts/src/tables/gsub.rs:53, gpos.rs likewise) and
     // ignores the stored extension_lookup_type.
@@ -191,7 +201,7 @@ where
     ctx.count(&format!("type:{}:variants", name), 1);
     let detail = |extra: Value| {
         let mut dbg = format!("{:?}", v);
-        dbg.truncate(4000);
+        crate::oracle::safe_truncate(&mut dbg, 4000);
         json!({"type": name, "origin": origin, "mutation": mutation, "value_debug": dbg, "more": extra})
     };
     match guard(|| v.validate()) {
@@ -239,7 +249,7 @@ where
     };
     if &v2 != v {
         let mut d2 = format!("{:?}", v2);
-        d2.truncate(4000);
+        crate::oracle::safe_truncate(&mut d2, 4000);
         // first differing position of the Debug renderings: a stable, specific key
         ctx.violation(&format!("roundtrip-mismatch:{}:-:{}", name, mutation_class(mutation)), detail(json!({"read_debug": d2})), Some(&bytes));
         return;
